@@ -20,7 +20,7 @@ def cases(rng, tier):
             acc = [0, 1, 0xFFFF, 0x8000, 0x1234][w % 5]
             memv = [0, 1, 0xFFFF, 0x7FFF, 0xABCD][(w // 5) % 5]
             a = w & 0xFFF
-            lines = ["toy.new", f"toy.load 2 {w} 49152" + (f" {a}:{memv}" if a >= 2 else ""), f"toy.accu {acc}",
+            lines = ["toy.new", f"toy.load 2 {w} 49152" + (f" {a}:{memv}" if a >= 2 else ""), f"toy.accu {acc}", "toy.snap",
                      "toy.call step", "toy.snap", "toy.call step", "toy.snap", "toy.call step", "toy.snap"]
             yield Case("toy-sweep", lines, None, {"n": 2, "words": [w, 49152]})
 
@@ -61,7 +61,7 @@ def oracle(c):
     accu = int(s0["accu"])
     maxpc = int(s0["max"]) if s0["max"] != "-" else -1
     # reference pc = address of the instruction to execute next
-    rpc = 0 if s0["ir"] != "-" else None
+    rpc = (int(s0["pc"]) - 1) % 4096 if s0["ir"] != "-" else None
     instrs = int(s0["ins"]); cycles = int(s0["cyc"])
     halted = s0["ir"] == "-"
     # walk the calls: only whole `step` calls are interpreted here (C20 covers the other styles)
